@@ -8,6 +8,8 @@ along every history). `functional.beam_search_advance` is also driven directly.
 """
 import contextlib
 import itertools
+import math
+import random
 from fractions import Fraction
 
 from common.framework import PropertyCheck, frac_str, case_hash
@@ -221,6 +223,185 @@ class C04(PropertyCheck):
             c["prev"] = [r + ["0"] for r in prev]
         return c
 
+    # ------------------------------------------------------------------ size classes
+    # Code paths that only run beyond a size (a shortcut for large vocabularies, a different kernel for wide
+    # beams, chunking of long batches ...) are invisible to V <= 6 / width <= 30 / 5 steps. Every run therefore
+    # has a few LARGE cases in every stream, in each dimension, on both sides of 100 / 300 / 600 / 2000 and
+    # next to powers of two; everything else about them is drawn as for the small cases.
+    SIZE_BUCKETS = ((101, 127, 128, 129, 255, 256, 257, 300), (301, 511, 512, 513, 600),
+                    (601, 1000, 1023, 1024, 1025, 2000), (2001, 2047, 2048, 2049, 4099))
+    BATCH_BUCKETS = ((8, 16, 17, 33), (64, 65, 101, 130))
+    STEP_BUCKETS = ((16, 17, 31, 32, 33), (63, 64, 65, 101, 130))
+    # (width or Kp, V) with the product next to 2^13, 2^15, 2^17
+    CAND_BUCKETS = (((8, 1024), (16, 512), (16, 513), (15, 546), (31, 264)),
+                    ((32, 1024), (33, 993), (64, 512), (16, 2048), (127, 258)),
+                    ((128, 1024), (127, 1033), (64, 2048), (256, 512), (32, 4099)))
+
+    @staticmethod
+    def size_label(x, lo=100):
+        return None if x <= lo else "101..300" if x <= 300 else "301..600" if x <= 600 else \
+            "601..2000" if x <= 2000 else ">2000"
+
+    def _size_search_case(self, rng, dim, bucket):
+        """One large BeamSearch case; `dim` says which dimension is large: "V", "width", "batch", "steps"
+        (max_iters), "cands" (width * V). Tables are built on demand (`lm.lazy`)."""
+        width_small = [2, 2, 3, 4, 5, 7, 8, 9, 16, 17]
+        batch = rng.choice([None, None, 1, 2, 3])
+        qbits = rng.choice([8, 12, 12])
+        lm = {"lazy": True}
+        if dim == "V":
+            V = rng.choice(bucket)
+            T = rng.choice([2, 2, 3, 3, 4])
+            width = rng.choice(width_small)
+            r = rng.random()
+            if r < 0.12:
+                T, width = 1, rng.choice([V - 1, V, V + 1, V + 7])     # one step, the whole vocabulary fits
+            elif r < 0.2:
+                width = rng.choice([1, V - 1, V, V + 1])
+        elif dim == "width":
+            width = rng.choice(bucket)
+            V = rng.choice([4, 5, 6] if width > 600 else [2, 3, 4, 5, 6])
+            T = max(2, math.ceil(math.log(width + 1, V)) + rng.choice([0, 1, 1, 2]))
+            batch = rng.choice([None, None, 2])
+        elif dim == "batch":
+            batch = rng.choice(bucket)
+            V = rng.choice([2, 3, 4, 5])
+            T = rng.choice([2, 3, 4])
+            width = rng.choice([1, 2, 3, 5])
+        elif dim == "steps":
+            T = rng.choice(bucket)
+            V = rng.choice([2, 3, 5])
+            width = rng.choice([1, 2, 3, 5, 8])
+            batch = rng.choice([None, None, 2, 3])
+            lm["cap"] = T + 2
+            if T > 33:
+                qbits = 8           # |score| <= 30 T: sums stay float32-exact on the 2^-8 grid
+        else:
+            width, V = rng.choice(bucket)
+            T = rng.choice([2, 2, 3])
+            batch = rng.choice([None, None, 2])
+        n = 1 if batch is None else batch
+        eos = rng.choice([None, None, 0, V - 1, rng.randrange(V), rng.randrange(V), -1])
+        fa = rng.random() < 0.5
+        # exact mode (quantising hook) or float mode (the library's own hook, library language models);
+        # float mode accumulates rounding errors over the steps: not beyond 33 steps
+        fl = rng.random() < 0.5 and T <= 33
+        force = None
+        if fl:
+            kind = rng.choice(["hash", "fusion", "mixfusion", "lookup", "rec"])
+            lm.update({"kind": kind, "dtype": rng.choice(["float32", "float32", "float64", "float64", "float16",
+                                                          "bfloat16"]), "view": rng.random() < 0.15})
+            if kind in ("fusion", "mixfusion") and rng.random() < 0.3:
+                lm["dtype2"] = rng.choice([d for d in L.DTYPES if d != lm["dtype"]])
+            if kind == "rec":
+                lm["h0"] = rng.random() < 0.8
+            if kind == "lookup":
+                lm.update({"order": rng.choice([1, 2, 2, 3]), "sos": rng.choice([-1, 0, V - 1, V]),
+                           "table_seed": rng.randrange(1, 1 << 30)})
+            else:
+                lm["beta"] = rng.choice([0.5, 1.0, 0.25])
+            via = "nohook"
+        else:
+            lm.update({"double": rng.random() < 0.2, "view": rng.random() < 0.15})
+            via = rng.choice(["instance", "subclass"])
+        zeros = lm.get("kind", "hash") not in ("lookup", "rec") and rng.random() < 0.15
+        if eos is not None and lm.get("kind") != "lookup":
+            # elements finish at different depths (early ones stay frozen for the rest of a long search)
+            force = [rng.choice([None, None, 0, 1, 2, 3, T // 2, T - 1]) for _ in range(n)]
+        return self._search_case(rng, V, T, width, eos, fa, batch, zeros=zeros, qbits=qbits, force=force,
+                                 via=via, pad=self._pad_choice(rng, V, eos), lm=lm)
+
+    def _size_advance_case(self, rng, dim, bucket):
+        """One large `beam_search_advance` case; the tensors are regenerated from `gen.seed` (`_adv_data`)
+        so that the case stays a few numbers. `dim`: "V", "width", "Kp", "N", "S", "cands" (Kp * V)."""
+        N = rng.choice([1, 1, 2, 3])
+        Kp = rng.choice([2, 2, 3, 5, 8])
+        V = rng.choice([2, 3, 4, 6])
+        S = rng.choice([0, 1, 2, 3, 4])
+        if dim == "V":
+            V = rng.choice(bucket)
+            width = rng.choice([2, 2, 3, 4, 7, 8, 16, 17, V - 1, V, V + 1, Kp * V + 2])
+        elif dim == "width":
+            width = rng.choice(bucket)
+            Kp = max(1, math.ceil(width / V) + rng.choice([-1, 0, 1, 5]))
+        elif dim == "Kp":
+            Kp = rng.choice(bucket)
+            width = rng.choice([1, 2, 5, Kp - 1, Kp, Kp + 1, Kp * V - 1, Kp * V + 2])
+        elif dim == "N":
+            N = rng.choice(bucket)
+            width = rng.choice([1, 2, 3, Kp * V, Kp * V + 2, max(1, Kp * V - 1)])
+        elif dim == "S":
+            S = rng.choice(bucket)
+            width = rng.choice([1, 2, 3, Kp * V, Kp * V + 2, max(1, Kp * V - 1)])
+        else:
+            Kp, V = rng.choice(bucket)
+            N = 1
+            width = rng.choice([2, 3, 16, 17, Kp - 1, Kp, Kp + 1, min(2 * Kp + 1, 300)])
+        width = max(1, width)
+        mode = rng.choice(["none", "full", "ragged", "short"]) if S else rng.choice(["none", "zero"])
+        dtype = rng.choice(["float32", "float32", "float64", "float16", "bfloat16"])
+        dtype_prev = rng.choice([dtype, dtype, dtype, "float32", "float64"])
+        coarse = bool({dtype, dtype_prev} & {"float16", "bfloat16"})
+        return {"kind": "advance", "N": N, "Kp": Kp, "V": V, "S": S, "width": width, "malformed": None,
+                "layout": rng.choice(["contiguous", "contiguous", "strided", "sliced", "permuted"]),
+                "dtype": dtype, "dtype_prev": dtype_prev,
+                "gen": {"seed": rng.randrange(1, 1 << 30), "pinf": rng.choice([0.0, 0.0, 0.15, 0.5]),
+                        "grid": 3 if coarse else 12, "oov": rng.random() < 0.25, "lens": mode}}
+
+    def _adv_data(self, case):
+        """prev / logp / y / lens of an advance case: stored in the case, or regenerated from `gen`
+        (values: multiples of 2^-grid in [-30, 0] resp. [-15, 0] for the 2^-3 grid, or -inf)."""
+        if "gen" not in case:
+            return case
+        key = case_hash(case)
+        if getattr(self, "_adv_cache", (None,))[0] == key:
+            return self._adv_cache[1]
+        g = case["gen"]
+        r = random.Random(g["seed"])
+        N, Kp, V, S = case["N"], case["Kp"], case["V"], case["S"]
+        den = 1 << g["grid"]
+        top = (15 if g["grid"] == 3 else 30) * den
+        pinf = g["pinf"]
+
+        def sc():
+            if pinf and r.random() < pinf:
+                return "-inf"
+            return frac_str(Fraction(-r.randrange(0, top), den))
+        prev = [[sc() for _ in range(Kp)] for _ in range(N)]
+        logp = [[[sc() for _ in range(V)] for _ in range(Kp)] for _ in range(N)]
+        lo, hi = (-2, V + 3) if g["oov"] else (0, V)
+        y = [[[r.randrange(lo, hi) for _ in range(S)] for _ in range(Kp)] for _ in range(N)]
+        mode = g["lens"]
+        lens = None if mode == "none" else [[S if mode == "full" else r.randrange(0, S + 1) if mode == "ragged"
+                                             else r.randrange(0, S) if mode == "short" else 0
+                                             for _ in range(Kp)] for _ in range(N)]
+        out = dict(case, prev=prev, logp=logp, y=y, lens=lens)
+        del out["gen"]
+        self._adv_cache = (key, out)
+        return out
+
+    def _size_cases(self, rng, tier):
+        """the large cases of one run: every dimension of every stream in every size bucket"""
+        reps = 1 if tier == "quick" else 6
+        for _ in range(reps):
+            for b in self.SIZE_BUCKETS:
+                yield self._size_search_case(rng, "V", b)
+                yield self._size_advance_case(rng, "V", b)
+                yield self._size_search_case(rng, "width", b)
+                yield self._size_advance_case(rng, "width", b)
+                yield self._size_advance_case(rng, "Kp", b)
+            for b in self.BATCH_BUCKETS:
+                yield self._size_search_case(rng, "batch", b)
+                yield self._size_advance_case(rng, "N", b)
+            for b in self.STEP_BUCKETS:
+                yield self._size_search_case(rng, "steps", b)
+                yield self._size_advance_case(rng, "S", b)
+            # width * V next to 2^13, 2^15 (search: also 2^17 beyond the quick tier), Kp * V up to 2^17
+            for i, b in enumerate(self.CAND_BUCKETS):
+                if i < 2 or tier != "quick":
+                    yield self._size_search_case(rng, "cands", b)
+                yield self._size_advance_case(rng, "cands", b)
+
     def cases(self, rng, tier):
         big = tier != "quick"
         # ---- hand-picked edges first
@@ -239,6 +420,8 @@ class C04(PropertyCheck):
         for T in (-1, -3):
             yield self._search_case(rng, 2, T, 2, rng.choice([None, 1]), True, rng.choice([None, 2]),
                                     malformed="max_iters")
+        # ---- size classes (large vocabulary / width / batch / step limit / candidate count), every stream
+        yield from self._size_cases(rng, tier)
         # ---- max_iters = 0 (nothing but the initial beam and _to_width), enumerated
         for V in (1, 2, 3):
             for width in (1, 2, 5):
@@ -384,13 +567,31 @@ class C04(PropertyCheck):
         ctx = L.make_ctx(case["seeds"], case["force"], e_tok)
         quant = not is_float(case)
         with L.default_dtype(case["lm"]):
-            lm = L.make_lm(V, case["qbits"], case["lm"])
+            lm = L.make_lm(V, case["qbits"], dict(case["lm"], lazy=False))
+            build = L.build_table
+            if case["lm"].get("lazy"):
+                # size classes: rows are computed when asked for (see LazyTable); when the whole tree of
+                # histories is small it is asked for right away, so that the completeness oracle can be used
+                def build(*a):
+                    tb = L.LazyTable(*a)
+                    if self._small(case):
+                        for d in range(depth + 1):
+                            for h in itertools.product(range(V), repeat=d):
+                                tb.get(h)
+                    return tb
             if case["lm"].get("noctx") or case["lm"].get("kind") == "lookup":
                 # nothing distinguishes the batch elements
-                tb = L.build_table(lm, ctx[0], case["qbits"], depth, e_tok, case["lm"], quant)
+                tb = build(lm, ctx[0], case["qbits"], depth, e_tok, case["lm"], quant)
                 return [tb] * n, ctx, e_tok
-            return [L.build_table(lm, ctx[i], case["qbits"], depth, e_tok, case["lm"], quant)
+            return [build(lm, ctx[i], case["qbits"], depth, e_tok, case["lm"], quant)
                     for i in range(n)], ctx, e_tok
+
+    def _small(self, case):
+        """the whole tree of histories up to the step limit is small enough to be enumerated (completeness
+        oracle `completeFrom`)"""
+        T = case["max_iters"]
+        fd = self._forced_depth(case)
+        return T is not None and (case["V"] ** T <= 300 or (fd is not None and case["V"] ** (fd + 1) <= 300))
 
     @staticmethod
     def _forced_depth(case):
@@ -507,6 +708,19 @@ class C04(PropertyCheck):
         else:
             elems = [self._observe(y[:, n], lens[n], lp[n]) for n in range(batch)]
             yy = y
+        if case["lm"].get("lazy"):
+            # tables built on demand: the unbatched model is asked about every history the searched model was
+            # called on (all columns of every call; the table refuses what can never be live: histories that
+            # contain eos) and about every prefix of every returned path (what `chain` needs)
+            for hist in lm.hists or []:
+                cols = hist.t().tolist()
+                per = max(1, len(cols) // len(tables))
+                for j, col in enumerate(cols):
+                    tables[min(j // per, len(tables) - 1)].get(col)
+            for n, slots in enumerate(elems):
+                for sl in slots:
+                    for k in range(len(sl.get("path", ()))):
+                        tables[n].get(sl["path"][:k])
         # trailing rows of each element that hold nothing but pad_value (frozen elements are right-padded)
         pad_rows = []
         for n in range(yy.size(1)):
@@ -538,6 +752,7 @@ class C04(PropertyCheck):
 
     def _run_advance(self, case):
         import torch
+        case = self._adv_data(case)
         from pydrobert.torch.functional import beam_search_advance
 
         def fl(v):
@@ -591,6 +806,7 @@ class C04(PropertyCheck):
     # ------------------------------------------------------------------ model
     def model_request(self, case):
         if case["kind"] == "advance":
+            case = self._adv_data(case)
             lens = case["lens"]
             rows = []
             for n in range(case["N"]):
@@ -621,8 +837,9 @@ class C04(PropertyCheck):
                 q = [s["path"] for s in impl["elems"][i] if "path" in s]
             queries.append(q)
         T = case["max_iters"]
-        fd = self._forced_depth(case)
-        small = T is not None and (case["V"] ** T <= 300 or (fd is not None and case["V"] ** (fd + 1) <= 300))
+        # on-demand tables always hold the row of the empty history: one step can be judged for completeness
+        # whatever the vocabulary size is (V complete sequences)
+        small = self._small(case) or (bool(case["lm"].get("lazy")) and T is not None and T <= 1)
         comp = T if (small and norm_eos(case["V"], case["eos"]) != "invalid") else None
         batch = [{"table": [[list(h), [frac_str(x) for x in sc]] for h, sc in tb.items()]} for tb in tables]
         req = {"V": case["V"], "width": case["width"], "eos": case["eos"], "finish_all": case["finish_all"],
@@ -652,6 +869,11 @@ class C04(PropertyCheck):
             if flags.get("ninf_choice"):
                 return []
             return [f"model raises {m['error']} ({m.get('detail')}), implementation returned a value"]
+        if flags.get("n_missing") and not tie_like(case, flags):
+            # the table holds the unbatched model's scores of every history the searched model was called on
+            # (or, for small cases, of all histories): the Lean model follows a live path that is not among them
+            return [f"the model needs the language model's scores of {flags['n_missing']} live histories the "
+                    f"implementation never asked the language model about, e.g. {flags.get('missing')}"]
         if is_float(case) and flags.get("sep") is False and not tie_like(case, flags):
             # the margin rule by which float-mode paths are compared must imply the hypothesis of the
             # proved stability theorem (C04_skeleton_stable: every selection decided by more than `margin`)
@@ -802,6 +1024,7 @@ class C04(PropertyCheck):
         return fails[:8]
 
     def _pred_advance(self, case, impl, model):
+        case = self._adv_data(case)
         mal = case.get("malformed")
         if "error" in impl:
             if mal and impl["error"] in ("RuntimeError", "IndexError"):
@@ -847,7 +1070,8 @@ class C04(PropertyCheck):
             sc = [S2F(s["score"]) for s in slots]
             if any(not fle(sc[k + 1], sc[k]) for k in range(len(sc) - 1)):
                 fails.append((f"row {n}: scores not non-increasing", None))
-            rest = [c for kv, c in cand.items() if kv not in set(chosen)]
+            taken = set(chosen)
+            rest = [c for kv, c in cand.items() if kv not in taken]
             if chosen and rest and len(chosen) == K:
                 worst = sc[K - 1]
                 if any(not fle(r, worst) for r in rest):
@@ -887,6 +1111,8 @@ class C04(PropertyCheck):
 
     def _tags(self, case, impl):
         if case["kind"] == "advance":
+            regenerated = "gen" in case
+            case = self._adv_data(case)
             t = ["advance", f"advance.lens={'none' if case['lens'] is None else 'given'}",
                  f"advance.S={'0' if case['S'] == 0 else '>0'}",
                  "advance.layout=" + case.get("layout", "contiguous"),
@@ -897,6 +1123,18 @@ class C04(PropertyCheck):
                 t.append("advance.prefix_tokens_out_of_vocabulary")
             if case.get("malformed"):
                 t.append("advance.malformed=" + case["malformed"])
+            if regenerated:
+                t.append("advance.size: tensors regenerated from a seed")
+            for nm, x in (("V", case["V"]), ("Kp", case["Kp"]), ("width", case["width"])):
+                if self.size_label(x):
+                    t.append(f"advance.size.{nm}={self.size_label(x)}")
+            if case["N"] >= 8:
+                t.append("advance.size.N=" + ("8..100" if case["N"] <= 100 else ">100"))
+            if case["S"] >= 16:
+                t.append("advance.size.S=" + ("16..33" if case["S"] <= 33 else "34..100" if case["S"] <= 100
+                                              else ">100"))
+            if case["Kp"] * case["V"] >= 1 << 12:
+                t.append(f"advance.size.candidates>=2^{(case['Kp'] * case['V']).bit_length() - 1}")
             return t
         V, T = case["V"], case["max_iters"]
         if case.get("malformed"):
@@ -904,10 +1142,29 @@ class C04(PropertyCheck):
         jk = self.junk_of(case)
         junk_tag = "search.uninitialised_cells=" + ("as allocated" if jk is None else "negative" if jk < 0 else
                                                     "beyond vocabulary" if jk >= V else "the eos token")
-        t = ["search", junk_tag, f"V={V}", f"max_iters={T}", f"batch={case['batch']}",
+        sz = []
+        if case["lm"].get("lazy"):
+            sz.append("search.size: tables built on demand")
+        for nm, x in (("V", V), ("width", case["width"])):
+            if self.size_label(x):
+                sz.append(f"search.size.{nm}={self.size_label(x)}")
+        if (case["batch"] or 0) >= 8:
+            sz.append("search.size.batch=" + ("8..100" if case["batch"] <= 100 else ">100"))
+        if (T or 0) >= 16:
+            sz.append("search.size.max_iters=" + ("16..33" if T <= 33 else "34..100" if T <= 100 else ">100"))
+        if case["width"] * V >= 1 << 12:
+            sz.append(f"search.size.candidates>=2^{(case['width'] * V).bit_length() - 1}")
+        if sz:
+            # the histograms of V / max_iters / batch list the small values; the large ones are binned
+            V_, T_, B_ = (">16" if V > 16 else V), (">=16" if (T or 0) >= 16 else T), \
+                (">=8" if (case["batch"] or 0) >= 8 else case["batch"])
+        else:
+            V_, T_, B_ = V, T, case["batch"]
+        t = ["search", junk_tag, f"V={V_}", f"max_iters={T_}", f"batch={B_}",
              f"finish_all={case['finish_all']}", "via=" + case.get("via", "instance"),
              "mode=" + ("float(tolerance)" if is_float(case) else f"exact(qbits={case['qbits']})"),
              "lm.kind=" + case["lm"].get("kind", "hash")]
+        t += sz
         p_ = case["pad"]
         en = norm_eos(V, case["eos"])
         t.append("pad=" + ("-1(default)" if p_ == -1 else "eos" if p_ == en else "token" if 0 <= p_ < V
@@ -955,6 +1212,7 @@ class C04(PropertyCheck):
 
     def shrink(self, case):
         if case["kind"] == "advance":
+            case = self._adv_data(case)     # regenerated tensors are written out, then cut down
             for k in ("N", "Kp"):
                 if case[k] > 1:
                     c = dict(case)
